@@ -156,7 +156,7 @@ pub struct Prop { pub name: &'static str, pub opts: ppref::Opts, pub includes: b
 pub fn main(args: &[String], which: &str) {
     let _workdir = &args[0]; let tier = &args[1]; let seed: u64 = args[2].parse().unwrap(); let out = &args[3];
     let thorough = tier == "thorough";
-    let o = |errors, comments, glue, positions, kept, same, pre| ppref::Opts { errors, comments, glue, positions, kept, include_same_line: same, predefined_names: pre };
+    let o = |errors, comments, glue, positions, kept, same, pre| ppref::Opts { errors, comments, glue, positions, kept, include_same_line: same, predefined_names: pre, conds: which != "c05" };
     let prop = match which {
         "c03" => Prop { name: "C03", opts: o(false, true, true, true, true, false, false), includes: true, checks: &["error", "text", "origins"] },
         "c04" => Prop { name: "C04", opts: o(false, true, false, false, true, false, true), includes: true, checks: &["error", "text", "defines"] },
